@@ -135,7 +135,7 @@ impl Prop for C17 {
         vec!["the f64 impls of the approx crate are the trusted primitive".into()]
     }
     fn cases(&self, tier: Tier) -> u64 {
-        tier.pick(400_000, 10_000_000)
+        tier.pick(400_000, 4_000_000)
     }
     fn strategy(&self, _tier: Tier) -> BoxedStrategy<Case> {
         let num = prop_oneof![6 => gen::moderate(12), 2 => gen::any_non_nan(), 1 => gen::from_table(&[0.0, -0.0, 1.0, 1e-9, 1e9])];
